@@ -250,7 +250,10 @@ func (w *world) expected(prefix string, excl, exact bool) (required, allowed map
 // exactExclusive: see expected.
 func (w *world) exactExclusive(s *subRec) bool {
 	vt := w.st.view(s.prefix)
-	return s.excl && s.sawAll && vt.snapshots <= 1 && !vt.dupWatch && len(vt.snapAmbig) == 0
+	// "saw every registration as an ordered event": nothing was registered when the subscriber
+	// attached AND when the range's first (only) snapshot was taken -- a subscriber may attach to
+	// a watcher whose initial load, run by a concurrent first subscriber, is still to come
+	return s.excl && s.sawAll && vt.snapshots <= 1 && (vt.snapshots == 0 || vt.firstSnapBlank) && !vt.dupWatch && len(vt.snapAmbig) == 0
 }
 
 func within(got, required, allowed map[string]bool) bool {
